@@ -693,6 +693,55 @@ fn systematic_hostile() -> &'static Vec<Mutant> {
                 }
             }
         }
+        // (5c) span provenance: the same skeleton forms, built by a template whose definition and
+        // call site are in different files, with each sub-expression in turn supplied by the call
+        // (valid and hostile arguments). Sibling expressions of one form then carry positions of
+        // different files, which every diagnostic that combines positions has to cope with.
+        {
+            fn replace_at(n: &Node, path: &[usize], with: &Node) -> Node {
+                if path.is_empty() {
+                    return with.clone();
+                }
+                match n {
+                    Node::List(l) => Node::List(l.iter().enumerate().map(|(i, x)| if i == path[0] { replace_at(x, &path[1..], with) } else { x.clone() }).collect()),
+                    a => a.clone(),
+                }
+            }
+            let prelude = "(defsrc a b c)\n(deflayer base a b c)\n(deflayer l2 a b c)\n(defvirtualkeys s1 a s2 b)\n";
+            let hostile_args = ["()", "(lsft)", "(a b)", "(lsft rsft a b)", "zz", "\"\"", "65536", "🔣", "(a (b (c)))"];
+            for sk in skeletons {
+                if sk.starts_with("(deftemplate") || sk.starts_with("(include") {
+                    continue;
+                }
+                let Some(nodes) = sexp::parse(sk) else { continue };
+                for path in sexp::all_paths(&nodes) {
+                    let Some(orig) = sexp::get(&nodes, &path) else { continue };
+                    let orig_txt = sexp::print(std::slice::from_ref(orig)).trim().to_string();
+                    let body: Vec<Node> = nodes.iter().enumerate().map(|(i, n)| if i == path[0] { replace_at(n, &path[1..], &Node::Atom("$p".into())) } else { n.clone() }).collect();
+                    let def = format!("(deftemplate xt (p) {})\n", sexp::print(&body).trim().replace('\n', " "));
+                    for (ai, arg) in std::iter::once(orig_txt.as_str()).chain(hostile_args.iter().copied()).enumerate() {
+                        if ai > 0 && arg == orig_txt {
+                            continue;
+                        }
+                        let call = format!("(t! xt {arg})\n");
+                        let zf = ("a".to_string(), "ab\tx\n".to_string());
+                        let head = match &nodes[path[0]] {
+                            Node::List(l) => match l.first() {
+                                Some(Node::Atom(a)) => a.clone(),
+                                _ => "?".into(),
+                            },
+                            Node::Atom(a) => a.clone(),
+                        };
+                        let d = format!("{head}: node {path:?} supplied across files as {arg}");
+                        push(&mut out, &format!("{d} (template in included file)"), format!("{prelude}(include t.kbd)\n{call}"), vec![("t.kbd".into(), def.clone()), zf.clone()]);
+                        push(&mut out, &format!("{d} (call in included file)"), format!("{prelude}{def}(include u.kbd)\n"), vec![("u.kbd".into(), call.clone()), zf.clone()]);
+                        if ai < 3 {
+                            push(&mut out, &format!("{d} (both included)"), format!("{prelude}(include t.kbd)\n(include u.kbd)\n"), vec![("t.kbd".into(), def.clone()), ("u.kbd".into(), call.clone()), zf.clone()]);
+                        }
+                    }
+                }
+            }
+        }
         // (4b) string shapes at every place that takes free text (incl. text built by concat / raw strings)
         let shapes = ["\"\"", "\"a\"", "\"a b\"", "r#\"\"\"#", "r#\"a\"b\"#", "r#\"\"#", "r#\"\"\"\"#", "(concat r#\"\"\"#)", "(concat r#\"\"\"# r#\"\"\"#)", "(concat \"a\" r#\"\"\"#)", "(concat r#\"\"\"# a)", "(concat \"\" \"\")", "(concat)", "(concat (concat r#\"\"\"#))", "\"🔣\"", "r#\"🔣\"\"#"];
         for sh in shapes {
@@ -799,6 +848,9 @@ impl Check for C03Check {
             j.out.inc("texts");
             if m.desc.starts_with("systematic:") {
                 j.out.inc("systematic_hostile_texts");
+                if m.desc.contains("supplied across files") {
+                    j.out.inc("cross_file_template_texts");
+                }
             }
             j.out.tag(format!("mut:{}", m.desc.chars().take(80).collect::<String>()));
             if m.via_file {
@@ -818,7 +870,7 @@ impl Check for C03Check {
         j.out
     }
     fn rule(&self) -> String {
-        format!("first block (identical for every seed): the systematic hostile family - every list-action keyword of parser/src/cfg/list_actions.rs (read from /repo at run time) x arity 0..5 x every argument kind and one odd slot in a plausible call; every defcfg option x boundary values (alone and in a configuration that uses the features the options configure); string shapes (empty, raw, lone quote built by concat, multi-byte) at every place that takes free text; every top-level form with degenerate bodies; defvar reference graphs over three variables (self, mutual and longer cycles through atoms, lists, concat) with use sites; one valid instance of every top-level form / rich action with each token replaced by hostile atoms, deleted or doubled; zippychord dictionary files; lexical endings (unterminated string / raw string / block comment / parenthesis) at end of file followed by 1-4-byte characters, in the main and in an included file. Then: case = {MUTANTS_PER_CASE} texts derived from one seed text: every shipped sample config, every parser test config, every [source] block of docs/config.adoc (fragments wrapped with a minimal defsrc/deflayer), every config string literal in the test sources (all read from /repo at run time; this block of cases is identical for every VERIF_SEED), and grammar-generated valid configs (random part). Texts are produced by structure-aware mutation inside one top-level form (delete/duplicate/swap/splice sub-expressions, () for atoms, atoms for lists, boundary numbers, unknown and self-referential names, dropped/extra arguments, wrap/unwrap) and by byte-level mutation (insert/delete/flip/truncate, multi-byte characters, unterminated strings/comments); included files are damaged, emptied, removed or replaced by a directory. Bounds: <= 64 KiB, parenthesis depth <= 64. Both entry points (new_from_str with a file map, new_from_file on a scratch directory). Non-trivial/distinct = distinct (seed, mutation kinds, head of mutated form) descriptions and distinct diagnostic messages.")
+        format!("first block (identical for every seed): the systematic hostile family - every list-action keyword of parser/src/cfg/list_actions.rs (read from /repo at run time) x arity 0..5 x every argument kind and one odd slot in a plausible call; every defcfg option x boundary values (alone and in a configuration that uses the features the options configure); string shapes (empty, raw, lone quote built by concat, multi-byte) at every place that takes free text; every top-level form with degenerate bodies; defvar reference graphs over three variables (self, mutual and longer cycles through atoms, lists, concat) with use sites; one valid instance of every top-level form / rich action with each token replaced by hostile atoms, deleted or doubled; the same forms built by a template whose definition and call are in different files (main/included in both directions, and two included files), each sub-expression in turn supplied by the call with valid and hostile arguments, so that sibling expressions carry positions of different files; zippychord dictionary files; lexical endings (unterminated string / raw string / block comment / parenthesis) at end of file followed by 1-4-byte characters, in the main and in an included file. Then: case = {MUTANTS_PER_CASE} texts derived from one seed text: every shipped sample config, every parser test config, every [source] block of docs/config.adoc (fragments wrapped with a minimal defsrc/deflayer), every config string literal in the test sources (all read from /repo at run time; this block of cases is identical for every VERIF_SEED), and grammar-generated valid configs (random part). Texts are produced by structure-aware mutation inside one top-level form (delete/duplicate/swap/splice sub-expressions, () for atoms, atoms for lists, boundary numbers, unknown and self-referential names, dropped/extra arguments, wrap/unwrap) and by byte-level mutation (insert/delete/flip/truncate, multi-byte characters, unterminated strings/comments); included files are damaged, emptied, removed or replaced by a directory. Bounds: <= 64 KiB, parenthesis depth <= 64. Both entry points (new_from_str with a file map, new_from_file on a scratch directory). Non-trivial/distinct = distinct (seed, mutation kinds, head of mutated form) descriptions and distinct diagnostic messages.")
     }
     fn assumptions(&self) -> Vec<String> {
         vec![
@@ -828,7 +880,7 @@ impl Check for C03Check {
         ]
     }
     fn floors(&self, _ctx: &Ctx) -> Vec<(&'static str, u64)> {
-        vec![("accepted", 500), ("errors_with_span", 2000), ("parses_from_file", 500), ("systematic_hostile_texts", 10_000)]
+        vec![("accepted", 500), ("errors_with_span", 2000), ("parses_from_file", 500), ("systematic_hostile_texts", 10_000), ("cross_file_template_texts", 3_000)]
     }
     fn hang_is_violation(&self) -> bool {
         true
